@@ -1,7 +1,9 @@
 package main
 
 import (
+	"fmt"
 	"go/ast"
+	"go/token"
 	"regexp"
 	"strings"
 )
@@ -152,6 +154,594 @@ func (e *emitter) c16LockFrame(s *source, rel, goName, leanName string) {
 	e.stringList(leanName, "lock frame of `"+goName+"` in "+rel+" (lock statements, `body` = statements under the lock, statements outside verbatim)", out)
 }
 
+// ---------------------------------------------------------------------------------------------------------
+// round 4: semantic ties.  Decision-making conditions and index arithmetic are TRANSLATED (translate.go's
+// expression / statement subset, after two source-level rewrites: `x << k` -> `x * 2^k`, a niladic method call
+// such as `klru.evicts.Len()` -> the identifier `evicts_Len`; `x == nil` -> the Bool `xNil`), the growth block
+// of Queue.Put is translated into a list program (make / copy / reslice), the type switches of Set into tables.
+
+func c16Rewrite(e ast.Expr) ast.Expr {
+	switch x := e.(type) {
+	case *ast.ParenExpr:
+		return &ast.ParenExpr{X: c16Rewrite(x.X)}
+	case *ast.UnaryExpr:
+		return &ast.UnaryExpr{Op: x.Op, X: c16Rewrite(x.X)}
+	case *ast.BinaryExpr:
+		if x.Op == token.SHL {
+			if lit, ok := x.Y.(*ast.BasicLit); ok && lit.Kind == token.INT && len(lit.Value) == 1 {
+				k := int(lit.Value[0] - '0')
+				return &ast.ParenExpr{X: &ast.BinaryExpr{X: c16Rewrite(x.X), Op: token.MUL, Y: &ast.BasicLit{Kind: token.INT, Value: fmt.Sprint(1 << k)}}}
+			}
+		}
+		if (x.Op == token.EQL || x.Op == token.NEQ) && c12IsIdent(x.Y, "nil") {
+			if id, ok := x.X.(*ast.Ident); ok {
+				v := ast.Expr(ast.NewIdent(id.Name + "Nil"))
+				if x.Op == token.NEQ {
+					return &ast.UnaryExpr{Op: token.NOT, X: v}
+				}
+				return v
+			}
+		}
+		return &ast.BinaryExpr{X: c16Rewrite(x.X), Op: x.Op, Y: c16Rewrite(x.Y)}
+	case *ast.CallExpr:
+		if sel, ok := x.Fun.(*ast.SelectorExpr); ok && len(x.Args) == 0 {
+			if inner, ok := sel.X.(*ast.SelectorExpr); ok {
+				return ast.NewIdent(inner.Sel.Name + "_" + sel.Sel.Name)
+			}
+		}
+	}
+	return e
+}
+
+func c16RewriteStmt(st ast.Stmt) ast.Stmt {
+	switch x := st.(type) {
+	case *ast.AssignStmt:
+		n := *x
+		n.Rhs = nil
+		for _, r := range x.Rhs {
+			n.Rhs = append(n.Rhs, c16Rewrite(r))
+		}
+		return &n
+	case *ast.IfStmt:
+		n := *x
+		n.Cond = c16Rewrite(x.Cond)
+		n.Body = c16RewriteBlock(x.Body)
+		if b, ok := x.Else.(*ast.BlockStmt); ok {
+			n.Else = c16RewriteBlock(b)
+		} else if x.Else != nil {
+			n.Else = c16RewriteStmt(x.Else)
+		}
+		return &n
+	case *ast.BlockStmt:
+		return c16RewriteBlock(x)
+	}
+	return st
+}
+
+func c16RewriteBlock(b *ast.BlockStmt) *ast.BlockStmt {
+	n := &ast.BlockStmt{}
+	for _, st := range b.List {
+		n.List = append(n.List, c16RewriteStmt(st))
+	}
+	return n
+}
+
+func (e *emitter) c16Fail(leanName, msg string) {
+	e.errors = append(e.errors, leanName+": "+msg)
+	e.printf("/-- TRANSLATION FAILED: %s -/\ndef %s : Unit := ()\n\n", msg, leanName)
+}
+
+func c16Recv(fd *ast.FuncDecl) string {
+	if fd.Recv != nil && len(fd.Recv.List) == 1 && len(fd.Recv.List[0].Names) == 1 {
+		return fd.Recv.List[0].Names[0].Name
+	}
+	return ""
+}
+
+// c16Expr emits `def leanName (free variables …) : Bool|Int` for the expression pick(fd) selects.
+func (e *emitter) c16Expr(t *translator, s *source, rel, goName, leanName string, isBool bool, pick func(fd *ast.FuncDecl) ast.Expr) {
+	fd := s.findFunc(rel, goName)
+	if fd == nil {
+		e.c16Fail(leanName, "function "+goName+" not found in "+rel)
+		return
+	}
+	defer func() {
+		if p := recover(); p != nil {
+			if te, ok := p.(transErr); ok {
+				e.c16Fail(leanName, te.msg)
+				return
+			}
+			e.c16Fail(leanName, fmt.Sprint(p))
+		}
+	}()
+	x := pick(fd)
+	if x == nil {
+		e.c16Fail(leanName, "expression not found in "+goName)
+		return
+	}
+	c := &tctx{t: t, recv: c16Recv(fd), locals: map[string]bool{}, freeSet: map[string]bool{}, boolVars: map[string]bool{}}
+	body := c.expr(c16Rewrite(x), isBool)
+	var params []string
+	for _, f := range c.free {
+		ty := "Int"
+		if c.boolVars[f] {
+			ty = "Bool"
+		}
+		params = append(params, "("+f+" : "+ty+")")
+	}
+	ty := "Int"
+	if isBool {
+		ty = "Bool"
+	}
+	e.printf("/-- `%s` in `%s` (%s) -/\ndef %s %s : %s :=\n  %s\n\n", s.src(x), goName, rel, leanName, strings.Join(params, " "), ty, body)
+}
+
+// c16Value translates the statements pick(fd) selects into a value function: `params` are mutable Int variables
+// bound by the caller (receiver fields read and written by the statements), `zero` are Go variables declared with
+// `var x int` (start at 0), `results` is what the function returns at the end.
+func (e *emitter) c16Value(t *translator, s *source, rel, goName, leanName string, params, zero, results []string, pick func(fd *ast.FuncDecl) []ast.Stmt) {
+	fd := s.findFunc(rel, goName)
+	if fd == nil {
+		e.c16Fail(leanName, "function "+goName+" not found in "+rel)
+		return
+	}
+	defer func() {
+		if p := recover(); p != nil {
+			if te, ok := p.(transErr); ok {
+				e.c16Fail(leanName, te.msg)
+				return
+			}
+			e.c16Fail(leanName, fmt.Sprint(p))
+		}
+	}()
+	list := pick(fd)
+	if len(list) == 0 {
+		e.c16Fail(leanName, "statements not found in "+goName)
+		return
+	}
+	var rl []ast.Stmt
+	for _, st := range list {
+		rl = append(rl, c16RewriteStmt(st))
+	}
+	c := &tctx{t: t, recv: c16Recv(fd), locals: map[string]bool{}, freeSet: map[string]bool{}, boolVars: map[string]bool{}, results: results}
+	var ps []string
+	for _, p := range params {
+		c.locals[p] = true
+		ps = append(ps, "("+leanIdent(p)+" : Int)")
+	}
+	pre := ""
+	for _, z := range zero {
+		c.locals[z] = true
+		pre += "  let " + leanIdent(z) + " : Int := 0\n"
+	}
+	body := c.stmts(rl, nil, "  ")
+	for _, f := range c.free {
+		ty := "Int"
+		if c.boolVars[f] {
+			ty = "Bool"
+		}
+		ps = append(ps, "("+f+" : "+ty+")")
+	}
+	ty := "Int"
+	if len(results) == 2 {
+		ty = "Int × Int"
+	}
+	var txt []string
+	for _, st := range list {
+		txt = append(txt, strings.Join(strings.Fields(s.src(st)), " "))
+	}
+	e.printf("/-- translated from `%s` in %s: `%s` -/\ndef %s %s : %s :=\n%s%s\n\n", goName, rel, strings.Join(txt, " ; "), leanName, strings.Join(ps, " "), ty, pre, body)
+}
+
+func c16NthIf(fd *ast.FuncDecl, n int) *ast.IfStmt {
+	var found *ast.IfStmt
+	i := 0
+	ast.Inspect(fd.Body, func(nd ast.Node) bool {
+		if is, ok := nd.(*ast.IfStmt); ok {
+			if i == n && found == nil {
+				found = is
+			}
+			i++
+		}
+		return true
+	})
+	return found
+}
+
+func c16IfCond(n int) func(fd *ast.FuncDecl) ast.Expr {
+	return func(fd *ast.FuncDecl) ast.Expr {
+		if is := c16NthIf(fd, n); is != nil {
+			return is.Cond
+		}
+		return nil
+	}
+}
+
+// c16StmtsFrom: the top-level statements of the body from the first one whose text starts with `from`
+// up to and including the first one (after it) whose text starts with `to` ("" = to the end)
+func (s *source) c16StmtsFrom(from, to string) func(fd *ast.FuncDecl) []ast.Stmt {
+	return func(fd *ast.FuncDecl) []ast.Stmt {
+		var out []ast.Stmt
+		on := false
+		for _, st := range fd.Body.List {
+			txt := s.src(st)
+			if !on && strings.HasPrefix(txt, from) {
+				on = true
+			}
+			if on {
+				out = append(out, st)
+				if to != "" && strings.HasPrefix(txt, to) && len(out) > 0 && (from != to || len(out) == 1) {
+					break
+				}
+			}
+		}
+		return out
+	}
+}
+
+// ---- list programs (the growth block of Queue.Put)
+
+type c16ListCtx struct {
+	recv  string
+	lists map[string]bool
+}
+
+func (c *c16ListCtx) name(e ast.Expr) string {
+	switch x := e.(type) {
+	case *ast.Ident:
+		return x.Name
+	case *ast.SelectorExpr:
+		if id, ok := x.X.(*ast.Ident); ok && id.Name == c.recv {
+			return x.Sel.Name
+		}
+	}
+	failf("list program: unsupported name")
+	return ""
+}
+
+func (c *c16ListCtx) intExpr(e ast.Expr) string {
+	switch x := e.(type) {
+	case *ast.ParenExpr:
+		return c.intExpr(x.X)
+	case *ast.BasicLit:
+		if x.Kind == token.INT {
+			return x.Value
+		}
+	case *ast.Ident, *ast.SelectorExpr:
+		return leanIdent(c.name(x))
+	case *ast.BinaryExpr:
+		if x.Op == token.ADD || x.Op == token.SUB {
+			return "(" + c.intExpr(x.X) + " " + x.Op.String() + " " + c.intExpr(x.Y) + ")"
+		}
+	case *ast.CallExpr:
+		if id, ok := x.Fun.(*ast.Ident); ok && id.Name == "len" && len(x.Args) == 1 {
+			return "((" + leanIdent(c.name(x.Args[0])) + ".length : Nat) : Int)"
+		}
+	}
+	failf("list program: unsupported integer expression")
+	return ""
+}
+
+// slice operand `x`, `x[a:]`, `x[:b]`, `x[a:b]` -> (list name, low, high) with high "" = len
+func (c *c16ListCtx) sliceOf(e ast.Expr) (string, string, string) {
+	if se, ok := e.(*ast.SliceExpr); ok {
+		n := leanIdent(c.name(se.X))
+		lo, hi := "0", "(("+n+".length : Nat) : Int)"
+		if se.Low != nil {
+			lo = c.intExpr(se.Low)
+		}
+		if se.High != nil {
+			hi = c.intExpr(se.High)
+		}
+		return n, lo, hi
+	}
+	n := leanIdent(c.name(e))
+	return n, "0", "((" + n + ".length : Nat) : Int)"
+}
+
+// c16ListProg translates `x := make([]any, n)`, `copy(dst[a:], src[b:c])`, `recv.f = intexpr`, `recv.l = list`
+// into a Lean term over `List Nat` and `Int`; result = (results …).
+func (e *emitter) c16ListProg(s *source, rel, goName, leanName string, lists, ints, results []string, pick func(fd *ast.FuncDecl) []ast.Stmt) {
+	fd := s.findFunc(rel, goName)
+	if fd == nil {
+		e.c16Fail(leanName, "function "+goName+" not found in "+rel)
+		return
+	}
+	defer func() {
+		if p := recover(); p != nil {
+			if te, ok := p.(transErr); ok {
+				e.c16Fail(leanName, te.msg)
+				return
+			}
+			e.c16Fail(leanName, fmt.Sprint(p))
+		}
+	}()
+	c := &c16ListCtx{recv: c16Recv(fd), lists: map[string]bool{}}
+	for _, l := range lists {
+		c.lists[l] = true
+	}
+	body := ""
+	var txt []string
+	for _, st := range pick(fd) {
+		txt = append(txt, strings.Join(strings.Fields(s.src(st)), " "))
+		switch x := st.(type) {
+		case *ast.AssignStmt:
+			if len(x.Lhs) != 1 || len(x.Rhs) != 1 {
+				failf("list program: multi assignment")
+			}
+			lhs := c.name(x.Lhs[0])
+			if call, ok := x.Rhs[0].(*ast.CallExpr); ok {
+				if id, ok := call.Fun.(*ast.Ident); ok && id.Name == "make" && len(call.Args) == 2 {
+					c.lists[lhs] = true
+					body += "  let " + leanIdent(lhs) + " : List Nat := goMake " + c.intExpr(call.Args[1]) + "\n"
+					continue
+				}
+			}
+			if n, ok := x.Rhs[0].(*ast.Ident); ok && c.lists[n.Name] {
+				c.lists[lhs] = true
+				body += "  let " + leanIdent(lhs) + " : List Nat := " + leanIdent(n.Name) + "\n"
+				continue
+			}
+			body += "  let " + leanIdent(lhs) + " : Int := " + c.intExpr(x.Rhs[0]) + "\n"
+		case *ast.ExprStmt:
+			call, ok := x.X.(*ast.CallExpr)
+			if !ok {
+				failf("list program: unsupported statement")
+			}
+			id, ok := call.Fun.(*ast.Ident)
+			if !ok || id.Name != "copy" || len(call.Args) != 2 {
+				failf("list program: unsupported call")
+			}
+			dn, dlo, _ := c.sliceOf(call.Args[0])
+			sn, slo, shi := c.sliceOf(call.Args[1])
+			body += fmt.Sprintf("  let %s : List Nat := goCopy %s %s (goSlice %s %s %s)\n", dn, dn, dlo, sn, slo, shi)
+		default:
+			failf("list program: unsupported statement %T", st)
+		}
+	}
+	var ps, rs []string
+	for _, l := range lists {
+		ps = append(ps, "("+leanIdent(l)+" : List Nat)")
+	}
+	for _, i := range ints {
+		ps = append(ps, "("+leanIdent(i)+" : Int)")
+	}
+	for _, r := range results {
+		rs = append(rs, leanIdent(r))
+	}
+	e.printf("/-- translated from `%s` in %s: `%s` -/\ndef %s %s : List Nat × Int × Int :=\n%s  (%s)\n\n", goName, rel, strings.Join(txt, " ; "), leanName, strings.Join(ps, " "), body, strings.Join(rs, ", "))
+}
+
+// ---- Set: constants (iota block) and the type switches
+
+func (e *emitter) c16IotaConsts(s *source, rel, first, leanName string) map[string]int {
+	vals := map[string]int{}
+	var items []string
+	for _, d := range s.file(rel).Decls {
+		gd, ok := d.(*ast.GenDecl)
+		if !ok || gd.Tok != token.CONST || len(gd.Specs) == 0 {
+			continue
+		}
+		vs0 := gd.Specs[0].(*ast.ValueSpec)
+		if len(vs0.Names) != 1 || vs0.Names[0].Name != first || len(vs0.Values) != 1 {
+			continue
+		}
+		if id, ok := vs0.Values[0].(*ast.Ident); !ok || id.Name != "iota" {
+			continue
+		}
+		for i, sp := range gd.Specs {
+			vs := sp.(*ast.ValueSpec)
+			if len(vs.Names) != 1 || (i > 0 && len(vs.Values) != 0) {
+				e.errors = append(e.errors, leanName+": const block is not a plain iota enumeration")
+				continue
+			}
+			vals[vs.Names[0].Name] = i
+			items = append(items, fmt.Sprintf("(%q, %d)", vs.Names[0].Name, i))
+		}
+	}
+	if len(items) == 0 {
+		e.errors = append(e.errors, leanName+": iota block starting with "+first+" not found in "+rel)
+	}
+	e.printf("/-- the `iota` constants of %s (name, value) -/\ndef %s : List (String × Int) := [%s]\n\n", rel, leanName, strings.Join(items, ", "))
+	return vals
+}
+
+// c16TypeSwitch: for every case of the (single) type switch in goName: (Go type, "lhs op rhs" of the assignment or of
+// the if-condition in its body with constants replaced by their values)
+func (e *emitter) c16TypeSwitch(s *source, rel, goName, leanName string, consts map[string]int) {
+	fd := s.findFunc(rel, goName)
+	if fd == nil {
+		e.c16Fail(leanName, "function "+goName+" not found in "+rel)
+		return
+	}
+	val := func(x ast.Expr) int {
+		if id, ok := x.(*ast.Ident); ok {
+			if v, ok := consts[id.Name]; ok {
+				return v
+			}
+		}
+		return -1
+	}
+	var items []string
+	ast.Inspect(fd.Body, func(n ast.Node) bool {
+		ts, ok := n.(*ast.TypeSwitchStmt)
+		if !ok {
+			return true
+		}
+		for _, cl := range ts.Body.List {
+			cc := cl.(*ast.CaseClause)
+			var tys []string
+			for _, t := range cc.List {
+				tys = append(tys, s.src(t))
+			}
+			what, v := "?", -1
+			if len(cc.Body) == 1 {
+				switch b := cc.Body[0].(type) {
+				case *ast.AssignStmt:
+					if len(b.Lhs) == 1 && len(b.Rhs) == 1 {
+						what, v = s.src(b.Lhs[0])+" "+b.Tok.String(), val(b.Rhs[0])
+					}
+				case *ast.IfStmt:
+					if be, ok := b.Cond.(*ast.BinaryExpr); ok && b.Else == nil && b.Init == nil && len(b.Body.List) == 1 && strings.HasPrefix(s.src(b.Body.List[0]), "logx.") {
+						what, v = "log if "+s.src(be.X)+" "+be.Op.String(), val(be.Y)
+					}
+				}
+			}
+			if cc.List == nil {
+				tys = []string{"default"}
+			}
+			items = append(items, fmt.Sprintf("(%q, %q, %d)", strings.Join(tys, ","), what, v))
+		}
+		return false
+	})
+	e.printf("/-- cases of the type switch in `%s` (%s): (dynamic type, effect, value of the constant involved) -/\ndef %s : List (String × String × Int) := [%s]\n\n", goName, rel, leanName, strings.Join(items, ", "))
+}
+
+func c16Round4(s *source, e *emitter, t *translator) {
+	const (
+		sm = "core/collection/safemap.go"
+		ff = "core/collection/fifo.go"
+		rg = "core/collection/ring.go"
+		st = "core/collection/set.go"
+		rw = "core/collection/rollingwindow.go"
+		ca = "core/collection/cache.go"
+		tw = "core/collection/timingwheel.go"
+	)
+	e.printf("/-! ### round 4: translated conditions, index arithmetic, list programs -/\n\n")
+	e.printf("/-- `make([]any, n)` -/\ndef goMake (n : Int) : List Nat := List.replicate n.toNat 0\n\n")
+	e.printf("/-- `l[a:b]` (bounds assumed valid) -/\ndef goSlice (l : List Nat) (a b : Int) : List Nat := (l.take b.toNat).drop a.toNat\n\n")
+	e.printf("/-- `copy(dst[at:], src)`: min(len(dst)-at, len(src)) elements -/\ndef goCopy (dst : List Nat) (at' : Int) (src : List Nat) : List Nat :=\n  dst.take at'.toNat ++ src.take (dst.length - at'.toNat) ++ dst.drop (at'.toNat + min src.length (dst.length - at'.toNat))\n\n")
+	// Queue
+	e.c16Expr(t, s, ff, "Queue.Put", "queueFullCond", true, c16IfCond(0))
+	e.c16Expr(t, s, ff, "Queue.Take", "queueTakeEmptyCond", true, c16IfCond(0))
+	e.c16Expr(t, s, ff, "Queue.Empty", "queueEmptyExpr", true, func(fd *ast.FuncDecl) ast.Expr {
+		for _, x := range fd.Body.List {
+			if as, ok := x.(*ast.AssignStmt); ok && len(as.Rhs) == 1 {
+				return as.Rhs[0]
+			}
+		}
+		return nil
+	})
+	e.c16ListProg(s, ff, "Queue.Put", "queueGrowProg", []string{"elements"}, []string{"head", "size"}, []string{"elements", "head", "tail"},
+		func(fd *ast.FuncDecl) []ast.Stmt {
+			if is := c16NthIf(fd, 0); is != nil {
+				return is.Body.List
+			}
+			return nil
+		})
+	// Ring
+	e.c16Expr(t, s, rg, "NewRing", "newRingGuard", true, c16IfCond(0))
+	e.c16Expr(t, s, rg, "Ring.Add", "ringAddSlot", false, func(fd *ast.FuncDecl) ast.Expr {
+		for _, x := range fd.Body.List {
+			if as, ok := x.(*ast.AssignStmt); ok && len(as.Lhs) == 1 {
+				if ix, ok := as.Lhs[0].(*ast.IndexExpr); ok {
+					return ix.Index
+				}
+			}
+		}
+		return nil
+	})
+	e.c16Value(t, s, rg, "Ring.Add", "ringAddIndex", []string{"index"}, nil, []string{"index"}, s.c16StmtsFrom("r.index++", ""))
+	e.c16Value(t, s, rg, "Ring.Take", "ringTakeWindow", nil, []string{"size", "start"}, []string{"size", "start"}, s.c16StmtsFrom("if r.index", "if r.index"))
+	e.c16Expr(t, s, rg, "Ring.Take", "ringTakeSlot", false, func(fd *ast.FuncDecl) ast.Expr {
+		var found ast.Expr
+		ast.Inspect(fd.Body, func(n ast.Node) bool {
+			if fs, ok := n.(*ast.ForStmt); ok {
+				for _, x := range fs.Body.List {
+					if as, ok := x.(*ast.AssignStmt); ok && len(as.Rhs) == 1 {
+						if ix, ok := as.Rhs[0].(*ast.IndexExpr); ok {
+							found = ix.Index
+						}
+					}
+				}
+			}
+			return true
+		})
+		return found
+	})
+	e.c16Expr(t, s, rg, "Ring.Take", "ringTakeLoopCond", true, func(fd *ast.FuncDecl) ast.Expr {
+		var found ast.Expr
+		ast.Inspect(fd.Body, func(n ast.Node) bool {
+			if fs, ok := n.(*ast.ForStmt); ok && found == nil {
+				found = fs.Cond
+			}
+			return true
+		})
+		return found
+	})
+	// Set
+	consts := e.c16IotaConsts(s, st, "unmanaged", "setTypeConsts")
+	e.c16TypeSwitch(s, st, "Set.setType", "setSetTypeCases", consts)
+	e.c16TypeSwitch(s, st, "Set.validate", "setValidateCases", consts)
+	ts := &translator{registry: map[string]*transFunc{}, consts: map[string]string{}}
+	for k, v := range consts {
+		ts.consts[k] = fmt.Sprint(v)
+	}
+	e.c16Expr(ts, s, st, "Set.validate", "setValidateSkip", true, c16IfCond(0))
+	e.c16Expr(ts, s, st, "Set.Contains", "setContainsEmptyGuard", true, c16IfCond(0))
+	// SafeMap (constants by name: defined above in this file)
+	tm := &translator{registry: map[string]*transFunc{}, consts: map[string]string{"maxDeletion": "maxDeletion", "copyThreshold": "copyThreshold"}}
+	e.c16Expr(tm, s, sm, "SafeMap.Set", "safeMapSetOldCond", true, c16IfCond(0))
+	e.c16Expr(tm, s, sm, "SafeMap.Del", "safeMapMigrate1Cond", true, c16IfCond(2))
+	e.c16Expr(tm, s, sm, "SafeMap.Del", "safeMapMigrate2Cond", true, c16IfCond(3))
+	// Cache
+	e.c16Expr(t, s, ca, "WithLimit", "cacheLimitGuard", true, c16IfCond(0))
+	e.c16Expr(t, s, ca, "keyLru.add", "lruOverflowCond", true, c16IfCond(1))
+	e.c16Expr(t, s, tw, "TimingWheel.SetTimer", "wheelSetTimerRejects", true, c16IfCond(0))
+	// the wheel interval NewCache passes, evaluated
+	if fd := s.findFunc(ca, "NewCache"); fd != nil {
+		done := false
+		ast.Inspect(fd, func(n ast.Node) bool {
+			if c, ok := n.(*ast.CallExpr); ok && !done {
+				if id, ok := c.Fun.(*ast.Ident); ok && id.Name == "NewTimingWheel" && len(c.Args) == 3 {
+					if v, ok := s.eval(ca, c.Args[0]); ok {
+						e.printf("/-- first argument of `NewTimingWheel` in `NewCache` (ns) -/\ndef cacheWheelIntervalNs : Int := %s\n\n", v.ExactString())
+						done = true
+					}
+				}
+			}
+			return true
+		})
+		if !done {
+			e.c16Fail("cacheWheelIntervalNs", "interval argument of NewTimingWheel not evaluable")
+		}
+	}
+	// RollingWindow.Reduce: diff, start offset, guard
+	e.c16Value(t, s, rw, "RollingWindow.Reduce", "rwReduceDiff", nil, []string{"diff"}, []string{"diff"}, s.c16StmtsFrom("span := ", "if span"))
+	e.c16Expr(t, s, rw, "RollingWindow.Reduce", "rwReduceGuard", true, c16IfCond(1))
+	e.c16Expr(t, s, rw, "RollingWindow.Reduce", "rwReduceStart", false, func(fd *ast.FuncDecl) ast.Expr {
+		if is := c16NthIf(fd, 1); is != nil {
+			for _, x := range is.Body.List {
+				if as, ok := x.(*ast.AssignStmt); ok && len(as.Rhs) == 1 {
+					return as.Rhs[0]
+				}
+			}
+		}
+		return nil
+	})
+	e.c16Expr(t, s, rw, "RollingWindow.updateOffset", "rwUpdateSkip", true, c16IfCond(0))
+	// statement lists of the constructors and of the glue not yet pinned
+	e.c16StmtList(s, rg, "NewRing", "newRingStmts")
+	e.c16StmtList(s, st, "NewSet", "newSetStmts")
+	e.c16StmtList(s, st, "NewUnmanagedSet", "newUnmanagedSetStmts")
+	for _, f := range []string{"Add", "AddInt", "AddInt64", "AddUint", "AddUint64", "AddStr"} {
+		e.c16StmtList(s, st, "Set."+f, "setPub"+f+"Stmts")
+	}
+	for _, f := range []string{"Keys", "KeysInt", "KeysInt64", "KeysUint", "KeysUint64", "KeysStr"} {
+		e.c16StmtList(s, st, "Set."+f, "setPub"+f+"Stmts")
+	}
+	e.c16StmtList(s, sm, "NewSafeMap", "newSafeMapStmts")
+	e.c16StmtList(s, rw, "NewRollingWindow", "newRollingWindowStmts")
+	e.c16StmtList(s, rw, "newWindow", "newWindowStmts")
+	e.c16StmtList(s, rw, "IgnoreCurrentBucket", "ignoreCurrentStmts")
+	e.c16StmtList(s, rw, "Bucket.Add", "bucketAddStmts")
+	e.c16StmtList(s, rw, "Bucket.Reset", "bucketResetStmts")
+	e.c16StmtList(s, ca, "newKeyLru", "newKeyLruStmts")
+	e.c16StmtList(s, ca, "Cache.size", "cacheSizeStmts")
+	e.c16StmtList(s, ca, "newCacheStat", "newCacheStatStmts")
+	e.c16StmtList(s, ca, "NewCache", "newCacheStmts")
+}
+
 func init() {
 	register("C16", func(s *source, e *emitter) {
 		const (
@@ -255,5 +845,6 @@ func init() {
 		} else {
 			e.errors = append(e.errors, "function NewCache not found in "+ca)
 		}
+		c16Round4(s, e, t)
 	})
 }
